@@ -15,7 +15,7 @@ type ResourcePath = String;
 pub struct Observer<Endpoint: Display> {
     pub endpoint: Endpoint,
     pub token: Vec<u8>,
-    unacknowledged_messages: u8,
+    unacknowledged_messages: u16,
     // The message id of the last update to be acknowledged
     message_id: Option<u16>,
 }
@@ -116,12 +116,14 @@ impl<Endpoint: Display + PartialEq + Clone> Subject<Endpoint> {
                 resource.observers.iter_mut().for_each(|observer| {
                     observer.message_id = Some(message_id);
                     if is_confirmable {
-                        observer.unacknowledged_messages += 1;
+                        observer.unacknowledged_messages =
+                            observer.unacknowledged_messages.saturating_add(1);
                     }
                 });
 
                 resource.observers.retain(|observer| {
-                    observer.unacknowledged_messages <= unacknowledged_limit
+                    observer.unacknowledged_messages
+                        <= u16::from(unacknowledged_limit)
                 });
             });
     }
